@@ -250,13 +250,15 @@ def rule_bitbuf(ctx):
 def rule_toc_gather(ctx):
     """a permuted table of contents reads the offset and the size of a section at the same position"""
     from ..facts import callee, op_local, op_place
-    from ..mirutil import Defs
+    from ..mirutil import Defs, alias_closure
     rid = "R-TOC-GATHER"
-    ctx.rule(rid, "Toc::parse, permuted case: the loop over the permutation (enumerate: counter, element) builds the reported offset and "
-                  "size of every section from the unpermuted vectors.  Offset and size of one section sit at one position, so every "
-                  "element read (Index::index) inside the loop that is indexed by the loop's counter or by its element uses the same of "
-                  "the two - a gather on one vector and a scatter on the other reports another section's offset for every permutation "
-                  "that is not an involution.  Decided on MIR by tracing each index back to the component of the iterator's item")
+    ctx.rule(rid, "Toc::parse, permuted case: the loop over the permutation builds the reported offset and size of every section from the "
+                  "unpermuted vectors.  Offset and size of one section sit at one position, so every element read (Index::index) of "
+                  "another vector whose index is either an element of the permutation or the position it was taken from uses the "
+                  "same of the two - a gather on one vector and a scatter on the other reports another section's offset for every "
+                  "permutation that is not an involution.  Decided on MIR by tracing each index back to the permutation vector "
+                  "(the result of read_permutation): `element` = read out of it (iterator item or permutation[i]), `position` = the "
+                  "enumerate counter, or the range variable it was indexed with")
     cr = ctx.prog.crate("jxl_frame")
     fs = [g for g in cr.fn_list if "toc::Toc as" in g.path and g.path.endswith("::parse")]
     if len(fs) != 1:
@@ -265,57 +267,118 @@ def rule_toc_gather(ctx):
     f = fs[0]
     ctx.seen(f)
     defs = Defs(f)
-    enum_next = None
-    for b, t in f.calls():
-        c = callee(t)
-        if c and c["fn"].endswith("Iterator::next") and any("Enumerate<" in a and "usize" in a for a in c.get("args", [])):
-            enum_next = (b, t)
-    if enum_next is None:
-        ctx.anchor_missing(rid, "the enumerate() loop over the permutation in Toc::parse")
+    seeds = {t[3][0] for b, t in f.calls() if callee(t) and callee(t)["fn"].endswith("read_permutation") and t[3] and len(t[3]) == 1}
+    if not seeds:
+        ctx.anchor_missing(rid, "the call of read_permutation in Toc::parse")
         return
-    nb, nt = enum_next
-    opt = nt[3][0]
-    loop = {x for x in f.reachable(nt[4]) if nb in f.reachable(x)}
+    P = set(alias_closure(f, seeds))
+    # references to it, iterators over it
+    grew = True
+    while grew:
+        grew = False
+        for blk in f.blocks:
+            if blk[2]:
+                continue
+            for st in blk[0]:
+                if st[0] == "=" and len(st[1]) == 1 and st[1][0] not in P and st[2][0] == "ref" and st[2][2][0] in P:
+                    P.add(st[1][0])
+                    grew = True
+            t = blk[1]
+            if t[0] == "call" and t[3] and len(t[3]) == 1 and t[3][0] not in P and callee(t):
+                last = callee(t)["fn"].split("::")[-1]
+                if last in ("iter", "into_iter", "enumerate", "deref", "as_slice", "by_ref", "copied", "cloned") and any(op_local(a) in P for a in t[2]):
+                    P.add(t[3][0])
+                    grew = True
+        P = set(alias_closure(f, P))
 
-    def klass(l, depth=0):
-        """'counter' / 'element' when local l is the .0 / .1 component of the item"""
+    def back(l):
+        """(kind, payload): trace local l through copies / derefs / casts to its origin"""
         seen = set()
-        while l is not None and l not in seen and depth < 20:
-            depth += 1
+        while l is not None and l not in seen:
             seen.add(l)
             d = defs.single(l)
-            if not d or d[2] != "assign":
+            if not d:
                 return None
+            if d[2] == "call":
+                return ("call", d[3])
             rv = d[3][2]
             pl = op_place(rv[1]) if rv[0] == "use" else (rv[2] if rv[0] == "ref" else (op_place(rv[2]) if rv[0] == "cast" else None))
             if pl is None:
                 return None
             fl = [e for e in pl[1:] if isinstance(e, list) and e[0] == "."]
-            if pl[0] == opt or (fl and "usize, &usize" in f.local_ty(pl[0]).replace("'_ ", "")):
-                if fl:
-                    k = fl[-1][1]
-                    if k in (0, 1) and ("usize, &" in f.local_ty(pl[0]) or pl[0] == opt):
-                        return "counter" if k == 0 else "element"
+            if fl:
+                return ("field", (pl[0], fl[-1][1]))
             l = pl[0]
         return None
 
+    positions = set()          # locals (range variables) the permutation itself is indexed with
+
+    def klass(l, depth=0):
+        o = back(l)
+        if o is None or depth > 6:
+            return None
+        if o[0] == "call":
+            c = callee(o[1])
+            if c and c["fn"].endswith("ops::index::Index::index") and len(o[1][2]) == 2 and op_local(o[1][2][0]) in P:
+                return "element"
+            return None
+        base, k = o[1]
+        # a component of an iterator item: Option<(usize, &usize)> payload, or the tuple itself
+        ob = base
+        for _ in range(6):
+            d = defs.single(ob)
+            if d and d[2] == "call":
+                c = callee(d[3])
+                if c and c["fn"].endswith("Iterator::next") and any(op_local(a) in P for a in d[3][2]):
+                    ty = " ".join(c.get("args", []))
+                    if "Enumerate<" in ty:
+                        return "position" if k == 0 else "element"
+                    return "element"
+                return None
+            if d and d[2] == "assign":
+                rv = d[3][2]
+                pl = op_place(rv[1]) if rv[0] == "use" else (rv[2] if rv[0] == "ref" else None)
+                if pl is None:
+                    return None
+                ob = pl[0]
+                continue
+            return None
+        return None
+
+    idx_calls = [(b, t) for b, t in f.calls() if callee(t) and callee(t)["fn"].endswith("ops::index::Index::index") and len(t[2]) == 2]
+    # range variables used to index the permutation are positions
+    from ..intervals import value_class
+    for b, t in idx_calls:
+        if op_local(t[2][0]) in P and op_local(t[2][1]) is not None:
+            try:
+                positions |= set(value_class(f, op_local(t[2][1])))
+            except Exception:
+                positions.add(op_local(t[2][1]))
     reads = []
-    for b, t in f.calls():
-        c = callee(t)
-        if b in loop and c and c["fn"].endswith("ops::index::Index::index") and len(t[2]) == 2:
-            k = klass(op_local(t[2][1]))
-            if k:
-                reads.append((k, c.get("args", ["?"])[0], t))
+    for b, t in idx_calls:
+        if op_local(t[2][0]) in P:
+            continue
+        il = op_local(t[2][1])
+        k = klass(il)
+        if k is None and il is not None:
+            try:
+                vc = set(value_class(f, il))
+            except Exception:
+                vc = {il}
+            if vc & positions:
+                k = "position"
+        if k:
+            reads.append((k, callee(t).get("args", ["?"])[0], t))
     ctx.count(rid + ".reads", len(reads))
     if len(reads) < 2:
-        ctx.anchor_missing(rid, "two element reads indexed by the permutation loop's item in Toc::parse")
+        ctx.anchor_missing(rid, "two element reads indexed through the permutation in Toc::parse")
         return
     kinds = {k for k, _, _ in reads}
     if len(kinds) == 1:
-        ctx.ok(rid, "gather-consistent", "%d reads, all indexed by the loop's %s" % (len(reads), kinds.pop()), nontrivial=True, fn=f)
+        ctx.ok(rid, "gather-consistent", "%d reads, all indexed by the permutation's %s" % (len(reads), kinds.pop()), nontrivial=True, fn=f)
     else:
         odd = [r for r in reads if r[0] != reads[0][0]][0]
-        ctx.bad(rid, "gather-inconsistent", "inside the permutation loop %s is read at the loop's %s while %s is read at its %s: offset and size "
+        ctx.bad(rid, "gather-inconsistent", "inside the permutation loop %s is read at the %s while %s is read at the %s: offset and size "
                 "of one section are taken from different positions" % (odd[1], odd[0], reads[0][1], reads[0][0]), fn=f, pos=odd[2][-2])
 
 
